@@ -83,14 +83,16 @@ MC = {
     "C06": [("MC_Scalars.tla", "MC_Scalars.cfg", QT, ()), ("MC_Mont.tla", "MC_Mont.cfg", QT, ()), ("MC_Mont.tla", "MC_Mont_3limbs.cfg", T_, ())],
     "C12": [("MC_Mont.tla", "MC_Mont.cfg", QT, ()), ("MC_Mont.tla", "MC_Mont_3limbs.cfg", T_, ())],
     "C07": [("MC_Scalars.tla", "MC_Scalars.cfg", QT, ())],
-    "C08": [("MC_Sswu.tla", "MC_Sswu.cfg", QT, ())],
+    "C08": [("MC_Sswu.tla", "MC_Sswu.cfg", QT, ()), ("Memo.tla", "MC_Memo_none.cfg", QT, ())],
+    "C09": [("Memo.tla", "MC_Memo_none.cfg", QT, ())],
     "C10": [("MC_History.tla", "MC_History_5.cfg", Q_, ()), ("MC_History.tla", "MC_History_6.cfg", T_, ()), ("MC_History.tla", "MC_History_wide.cfg", T_, ())],
     "C11": [("MC_Sswu.tla", "MC_Sswu.cfg", QT, ()), ("MC_Sswu.tla", "MC_Sswu_79.cfg", QT, ())],
     "C13": [("MC_Scalars.tla", "MC_Scalars.cfg", QT, ())],
     "C14": [("MC_Scalars.tla", "MC_Scalars.cfg", QT, ()), ("MC_Ladder.tla", "MC_Ladder.cfg", QT, ())],
     "C15": [("MemAppend.tla", "MC_MemAppend_fresh.cfg", QT, ()),
             ("Conc.tla", "MC_Conc_a.cfg", QT, ()), ("Conc.tla", "MC_Conc_b.cfg", QT, ()), ("Conc.tla", "MC_Conc_c.cfg", QT, ()), ("Conc.tla", "MC_Conc_d.cfg", QT, ())],
-    "C16": [("Conc.tla", "MC_Conc_b.cfg", QT, ()), ("Conc.tla", "MC_Conc_c.cfg", QT, ()), ("Conc.tla", "MC_Conc_3g.cfg", QT, ())],
+    "C16": [("Conc.tla", "MC_Conc_b.cfg", QT, ()), ("Conc.tla", "MC_Conc_c.cfg", QT, ()), ("Conc.tla", "MC_Conc_3g.cfg", QT, ()),
+            ("Memo.tla", "MC_Memo_none.cfg", QT, ()), ("Memo.tla", "MC_Memo_one_section.cfg", QT, ())],
     "C18": [("MC_Random.tla", "MC_Random.cfg", Q_, ()), ("MC_Random.tla", "MC_Random_deep.cfg", T_, ())],
     "C19": [("MC_Ladder.tla", "MC_Ladder.cfg", QT, ())],
 }
@@ -110,6 +112,8 @@ DEVIATIONS = {
     "C06": [("MC_Mont.tla", "MC_Mont.cfg", 'Dev = "none"', 'Dev = "carry-always-one"'),
             ("MC_Mont.tla", "MC_Mont.cfg", 'Dev = "none"', 'Dev = "add-no-final-sub"')],
     "C12": [("MC_Mont.tla", "MC_Mont.cfg", 'Dev = "none"', 'Dev = "opp-zero-is-m"')],
+    "C08": [("Memo.tla", "MC_Memo_none.cfg", 'Design = "none"', 'Design = "by_reference"')],
+    "C09": [("Memo.tla", "MC_Memo_none.cfg", 'Design = "none"', 'Design = "by_reference"')],
     "C10": [("MC_History.tla", "MC_History.cfg", 'Dev = "none"', 'Dev = "equal-ignores-y"')],
     "C13": [("MC_Scalars.tla", "MC_Scalars.cfg", 'Dev = "none"', 'Dev = "compare-montgomery"'),
             ("MC_Scalars.tla", "MC_Scalars.cfg", 'Dev = "none"', 'Dev = "cmov-raw-cond"')],
@@ -118,7 +122,10 @@ DEVIATIONS = {
             ("MemAppend.tla", "MC_MemAppend_fresh.cfg", 'Strategy = "fresh"', 'Strategy = "append-to-dst"'),
             ("MemAppend.tla", "MC_MemAppend_fresh.cfg", 'Strategy = "fresh"', 'Strategy = "append-to-msg"'),
             ("MemAppend.tla", "MC_MemAppend_fresh.cfg", 'Strategy = "fresh"', 'Strategy = "digest-into-dst"')],
-    "C16": [("Conc.tla", "MC_Conc_c.cfg", "InPlace = FALSE", "InPlace = TRUE")],
+    "C16": [("Conc.tla", "MC_Conc_c.cfg", "InPlace = FALSE", "InPlace = TRUE"),
+            ("Memo.tla", "MC_Memo_none.cfg", 'Design = "none"', 'Design = "unlocked"'),
+            ("Memo.tla", "MC_Memo_none.cfg", 'Design = "none"', 'Design = "two_sections"'),
+            ("Memo.tla", "MC_Memo_none.cfg", 'Design = "none"', 'Design = "by_reference"')],
     "C18": [("MC_Random.tla", "MC_Random.cfg", 'Dev = "none"', 'Dev = "zero-check-before-reduce"'),
             ("MC_Random.tla", "MC_Random.cfg", 'Dev = "none"', 'Dev = "single-read"')],
     "C19": [("MC_Ladder.tla", "MC_Ladder.cfg", 'Dev = "none"', 'Dev = "ladder-adds-only-when-bit-set"')],
@@ -490,13 +497,13 @@ def carry_corpus(tier, seed, work):
     return files
 
 
-def record_pass(prop, gname, groups, tier, seed, scale, work, tdir):
+def record_pass(prop, gname, groups, tier, seed, scale, work, tdir, corpus=True):
     """Build the harness for these file groups, run generator gname, return its summary."""
     race = prop in CONCURRENT_PROPS or gname == "C16"
     binary, accessor = build_harness(work, race=race, groups=groups)
     cmd = [binary, "-prop", gname, "-out", tdir, "-seed", str(seed), "-tier", tier,
            "-shards", str(NCPU * (4 if tier == "thorough" else 1)), "-scale", str(scale)]
-    if gname in CARRY_PROPS:
+    if gname in CARRY_PROPS and corpus:
         files = carry_corpus(tier, seed, work)
         if files:
             cmd += ["-corpus", ",".join(files)]
@@ -833,8 +840,8 @@ def selftest(work):
 
     def record(gname, groups, scale):
         tdir = tempfile.mkdtemp(prefix="st_", dir=work)
-        sm = record_pass("C10", gname, groups, "quick", 7, scale, work, tdir)
-        return sm["files"][0]
+        sm = record_pass("C10", gname, groups, "quick", 7, scale, work, tdir, corpus=False)
+        return sm["files"]
 
     def expect(label, res, want_line=None, at_or_after=None):
         nonlocal ok
@@ -850,14 +857,15 @@ def selftest(work):
              ("C15", ("main",), 0.2, ("TraceMem.tla", "TraceMem.cfg"), "MemCall", lambda e: e["bufs"][0]["after"].__setitem__(0, e["bufs"][0]["after"][0] ^ 1) if e["bufs"] else e["rets"][0].__setitem__("iv", [1, 10 ** 6])),
              ("C19", ("main", "sched"), 0.5, ("TraceSched.tla", "TraceSched.cfg"), "Sched", lambda e: e["seq"].__setitem__(1000, e["seq"][1000] + 1))]
     for gname, groups, scale, (tmod, tcfg), op, corrupt in cases:
-        f = record(gname, groups, scale)
+        fs = record(gname, groups, scale)
+        f = max(fs, key=lambda x: sum(1 for l in read_lines(x)[2:-1] if ('"op":"%s"' % op) in l[:40]))
         lines = read_lines(f)
         base = validate_one(specdir, f, work, 600, tmod, tcfg)
         if base["dis"] or base["end"] is None:
             log("  %s: the unmodified recording is not accepted -- cannot self-test" % gname)
             ok = False
             continue
-        idx = [i for i, l in enumerate(lines) if ('"op":"%s"' % op) in l[:40]]
+        idx = [i for i, l in enumerate(lines[:-1]) if ('"op":"%s"' % op) in l[:40]]
         if gname == "C19":
             idx = idx[1:]       # the first run of a point only fixes the reference schedule
         if gname == "C15":
@@ -867,6 +875,15 @@ def selftest(work):
             ok = False
             continue
         k = idx[len(idx) // 2]
+        # for the "dropped event" test the event must have CHANGED what is observed (a product that equals the old
+        # contents of its destination leaves no trace when it is removed)
+        def changed(c):
+            e0, e1 = json.loads(lines[c - 1]), json.loads(lines[c])
+            return c > 2 and "obs" in e0 and e0["obs"] != e1["obs"]
+        for cand in idx[len(idx) // 2:] + idx[:len(idx) // 2]:
+            if changed(cand):
+                k = cand
+                break
         ev = json.loads(lines[k])
         corrupt(ev)
         g = os.path.join(work, "corrupt_%s.ndjson" % gname)
